@@ -1,6 +1,6 @@
 """Driver configuration and manifest text for C07 (see DESIGN.md 5.7)."""
 
-RULE_ADD = ' Later additions: Consumer.Offsets.Retention set in a third of the cases (OffsetCommit v2); Consumer.Group.Rebalance.Retry.Max drawn from {4,4,4,1,0,0}.'
+RULE_ADD = ' Later additions: Consumer.Offsets.Retention set in a third of the cases (OffsetCommit v2); Consumer.Group.Rebalance.Retry.Max drawn from {4,4,4,1,0,0}; Consumer.Offsets.Retry.Max drawn from {3,3,0,1}; one case in four with an auto-commit interval of an hour (only the final commit of a session commits).'
 
 CHECK = {
     'pkg': '.', 'sim': True,
